@@ -97,7 +97,7 @@ func c16Setup(c *c16Case) (tmp, dest string, err error) {
 		tmp = r
 	}
 	os.MkdirAll(filepath.Join(tmp, "outside", "dir"), 0o755)
-	os.WriteFile(filepath.Join(tmp, "outside", "target"), []byte("canary"), 0o644)
+	os.WriteFile(filepath.Join(tmp, "outside", "target"), []byte("digest: canary\n"), 0o644) // parses as a lock file, so a chart whose lock is a symlink to it still loads
 	os.WriteFile(filepath.Join(tmp, "outside", "dir", "keep"), []byte("keep"), 0o644)
 	dest = filepath.Join(tmp, "work", "dest")
 	os.MkdirAll(dest, 0o755)
@@ -347,6 +347,21 @@ func c16GenSandbox(r *rand.Rand) c16Case {
 		c := c16GenArch(r)
 		c.MaxTotal, c.MaxFile = 0, 0
 		c.Kind = []string{"expand", "extract"}[r.Intn(2)]
+		if c.Kind == "extract" && r.Intn(2) == 0 {
+			// a plain plugin archive (directories and regular files, relative names): the
+			// interesting part is then what is planted in the destination
+			c.Ents, c.Flips, c.Cut, c.NoEnd = nil, nil, 0, false
+			c.Ents = append(c.Ents, c16Ent{Name: "plugin.yaml", Type: '0', Mode: 0o644, Size: -1, Data: []byte("name: p\n")})
+			if r.Intn(2) == 0 {
+				c.Ents = append(c.Ents, c16Ent{Name: "bin", Type: '5', Mode: 0o755})
+			}
+			for i := r.Intn(4); i > 0; i-- {
+				n := []string{"bin/x", "README.md", "a/b/c", "mychart/new", "./dot/rel", "docs//double", "x.tgz"}[r.Intn(7)]
+				if !strings.Contains(n, "/") || r.Intn(2) == 0 {
+					c.Ents = append(c.Ents, c16Ent{Name: n, Type: '0', Mode: 0o755, Size: -1, Data: c16Data(r, r.Intn(30))})
+				}
+			}
+		}
 		if c.Kind == "expand" {
 			name := []string{"mychart", "mychart", "mychart", "../evil", "/abs", "a/b", "..", ".", "", "my\\chart"}[r.Intn(10)]
 			first := c16Ent{Name: "x/Chart.yaml", Type: '0', Mode: 0o644, Size: -1, Data: []byte(fmt.Sprintf("apiVersion: v2\nname: %q\nversion: 0.1.0\n", name))}
